@@ -1,6 +1,7 @@
 """Direct oracles on the implementation for views, search and edits:
 C03 C04 C05 C14 C15."""
 import copy
+import os
 import re
 
 import gen
@@ -68,7 +69,20 @@ def names_in(soup):
     return names
 
 
-DIR_TEXNODE = set(dir(TexNode))
+# Names for which attribute access does NOT go through the search: the
+# attributes of the node API as recorded for the pinned source (an observation
+# of the unchanged library, DESIGN 8: `soup.text`, `soup.count`, ... are the
+# API, not the commands \text, \count).  A name the API gains later is not in
+# this list, so a command of that name is expected to be reachable by attribute
+# access like any other - a new method that shadows a command name is reported.
+try:
+    import json as _json
+    with open(os.path.join(os.path.dirname(os.path.abspath(__file__)), 'baseline_api.json')) as _f:
+        DIR_TEXNODE = set(_json.load(_f))
+except Exception:      # noqa
+    DIR_TEXNODE = set(dir(TexNode))
+NEW_API_NAMES = sorted(n for n in set(dir(TexNode)) - DIR_TEXNODE
+                       if re.fullmatch(r'[A-Za-z]+', n))
 
 
 # ------------------------------------------------------------------- C03
@@ -111,7 +125,10 @@ def check_search(r, src, soup, rng, max_roots):
                                opts={'name': name}))
             if name not in DIR_TEXNODE and not name.startswith('_'):
                 ga = getattr(node, name)
-                if (ga is None) != (first is None) or (ga is not None and ga.expr is not first.expr):
+                if ga is not None and not isinstance(ga, TexNode):
+                    r.fail(Failure('C03', 'getattr', src, repr(ga)[:80], str(first),
+                                   opts={'name': name, 'note': 'attribute access does not reach the search'}))
+                elif (ga is None) != (first is None) or (ga is not None and ga.expr is not first.expr):
                     r.fail(Failure('C03', 'getattr', src, str(ga), str(first),
                                    opts={'name': name}))
         # list queries: union
@@ -162,6 +179,10 @@ def _c03_chunk(arg):
 def oracle_C03(tier):
     n, depth, mr = (250, 3, 12) if tier == 'quick' else (2500, 5, 40)
     docs = [s for s, _ in inputs.grammar_docs('C03', n, depth)] + inputs.repo_samples()
+    # commands named like attributes the node API has gained since the baseline
+    for nm in NEW_API_NAMES:
+        docs += ['The watermelon\\%s{w} and \\textbf{x \\%s{y}}' % (nm, nm),
+                 '\\begin{itemize}\\item a \\%s{w}\\item b\\end{itemize}' % nm]
     res = Result('oracle-C03')
     for i, r in enumerate(pmap(_c03_chunk, [(c, mr, str(i)) for i, c in
                                             enumerate(chunked(docs, NPROC * 2))])):
